@@ -182,19 +182,18 @@ Print Assumptions C05_wire_value_at_send_partial.
 
 (* ---- server ---------------------------------------------------------------------------------- *)
 (* (10'') source facts (Gen/FactsC05.v, regenerated from server.py / utils.py on every run): the
-   handler runs inside `with deadline_wrapper, wrapper:` IN THIS ORDER, and DeadlineWrapper.start
-   with nothing remaining cancels the wrapper, then raises.  The model's answer for an expired
+   handler runs inside the context of start() FIRST and the wrapper itself SECOND (roles, whatever
+   the spelling), and DeadlineWrapper.start with nothing remaining cancels the wrapper with a
+   TimeoutError, then raises it.  The model's answer for an expired
    deadline is computed from these facts: with `wrapper` entered first the request task would cancel
    itself and a suspending reply path would lose the answer; without the cancel the answer would be
    UNKNOWN (second and third conjunct: the model is sensitive to both). *)
 Theorem C05_server_source_facts :
-  (handler_with_order = [CMDeadline; CMWrapper] /\
-   start_expired = [SA_bind_timeout_error; SA_cancel; SA_raise] /\
-   start_armed = [SA_callback_cancels; SA_call_later_timeout; SA_yield; SA_finally_timer_cancel]) /\
+  (handler_with_order = [CMDeadline; CMWrapper] /\ start_expired = [SA_cancel; SA_raise]) /\
   (forall rs, expired_status rs = StDeadline) /\
   (expired_status_of [CMWrapper; CMDeadline] start_expired true = StNoAnswer /\
    expired_status_of [CMWrapper; CMDeadline] start_expired false = StDeadline /\
-   (forall rs, expired_status_of handler_with_order [SA_bind_timeout_error; SA_raise] rs = StUnknown)).
+   (forall rs, expired_status_of handler_with_order [SA_raise] rs = StUnknown)).
 Proof. exact (conj source_order_facts (conj expired_status_deadline expired_status_other_orders)). Qed.
 Print Assumptions C05_server_source_facts.
 
